@@ -19,7 +19,7 @@ Ids(rs) == [x \in 1..Len(rs) |-> rs[x].id]
 Groups ==
     LET rs == Rows(hist) IN
     CASE w \in SeriesWriters -> LET runs == Runs(rs) IN [r \in 1..Len(runs) |-> <<runs[r][1].fp, Ids(runs[r])>>]
-      [] w \in ListWriters   -> Ids(rs)
+      [] w \in ListWriters \cup BatchListWriters -> Ids(rs)
       [] w = "vector"        -> LET S == {rs[p].fp : p \in 1..Len(rs)}
                                     sq == SelectSeq(<<0, 1, 2>>, LAMBDA fp : fp \in S) IN
                                 [x \in 1..Len(sq) |-> <<sq[x], Best(rs, sq[x]).id>>]
